@@ -127,7 +127,7 @@ Proof.
   assert (Em : (cd_dbc d || existsb (fun b => match get_class w1 b with Some c => co_meta c | None => false end) (cd_bases d))
                = is_meta w d) by (unfold is_meta, get_class; rewrite E1; reflexivity).
   rewrite Em in H.
-  destruct (compute_mro w1 (List.length (w_classes w1)) (cd_bases d)) as [mro|]; [|discriminate].
+  destruct (compute_mro w1 (List.length (w_classes w1)) (cd_bases d)) as [mro|]; [|match goal with H0 : context [if ?b then ?x else ?y] |- _ => destruct (if b then x else y) end; discriminate].
   destruct (is_meta w d) eqn:Meta.
   - destruct (collapse_invariants w1 (cd_bases d) LInv) as [wa i1] eqn:Ca.
     destruct (collapse_invariants wa (cd_bases d) LCall) as [wb i2] eqn:Cb.
